@@ -57,3 +57,18 @@ Section Core.
     unfold fp_no_cfg, fp_core, fp_family. cbn [app]. repeat constructor.
   Qed.
 End Core.
+
+(* ---- the full registry ---- *)
+From PushModel Require Import Model.RegistryAll Proofs.FrameProofs2.
+
+Lemma fp_no_cfg_b fp : forallb (fun e : string * mask => negb (m_cfg (snd e))) fp = true -> fp_no_cfg fp.
+Proof.
+  intros H. unfold fp_no_cfg. rewrite Forall_forall. rewrite forallb_forall in H.
+  intros e Hin. specialize (H e Hin). now destruct (m_cfg (snd e)).
+Qed.
+
+Section Full.
+  Context {FO : FloatOps}.
+  Lemma full_cfg_stable : reg_cfg_stable full_registry.
+  Proof. apply (framed_cfg_stable _ fp_all all_framed). apply fp_no_cfg_b. vm_compute. reflexivity. Qed.
+End Full.
